@@ -38,6 +38,22 @@ def run(tier):
         chk.traces_validated += n
         chk.add_phase("replay " + name, cases=n, sampled_fraction=frac)
         tlc.cleanup("C17_" + name)
+    # the state without modes (every mode of a circuit heralded) is a state like any other: the three routes agree on it
+    import numpy as np
+    import lightworks as lw
+    from lightworks.emulator.results import SimulationResult
+    e0 = lw.State([])
+    for typ, val in (("probability", 0.25), ("probability_amplitude", 0.5 + 0.5j), ("probability", 0.0)):
+        r0 = SimulationResult(np.array([[val]]), typ, inputs=[e0], outputs=[e0])
+        chk.count(key="empty-state/%s/%r" % (typ, val))
+        try:
+            got = (r0[e0, e0], r0[e0][e0], r0.array[0, 0])
+        except Exception as e_:  # noqa: BLE001
+            got = ("raised %s" % type(e_).__name__,)
+        if len(got) != 3 or any(not np.isscalar(g) or abs(g - val) > 0 for g in got):
+            chk.violation("index", "result with the zero-mode state as input and output: pair / nested / array give %s, built from %r" % (list(map(str, got)), val),
+                          script={"directed": "zero-mode state", "type": typ}, sig={"clause": "index", "directed": "empty_state"})
+    chk.add_phase("directed: the zero-mode state as input and output", cases=3)
     chk.assumptions = ["TLC 1.8 + CommunityModules", "precondition of the property: input and output lists hold distinct states"]
     return chk.finish()
 
